@@ -83,6 +83,17 @@ func evCalls(evs evSet, extra ...func(in ssa.Instruction) string) func(in ssa.In
 //
 // It returns "" if every requirement holds, otherwise the first that does not.
 func need(e *pathEngine, st *PState, errIdxOf map[string]int, reqs ...string) string {
+	if e != nil {
+		// error-result indices observed at the call sites themselves take precedence
+		m := map[string]int{}
+		for k, v := range errIdxOf {
+			m[k] = v
+		}
+		for k, v := range e.evErr {
+			m[k] = v
+		}
+		errIdxOf = m
+	}
 	for _, r := range reqs {
 		ok := false
 		for _, lit := range strings.Split(r, "|") {
@@ -393,5 +404,58 @@ func firstOf(fs ...func(in ssa.Instruction) string) func(in ssa.Instruction) str
 			}
 		}
 		return ""
+	}
+}
+
+// ---------------------------------------------------------------------------------------------
+// comparison atoms named by the normalised paths of their operands
+
+type cmpSpec struct {
+	name string
+	op   token.Token             // EQL (also matches NEQ, negated) or an ordering operator (exact, operands in order)
+	x, y func(path string) bool // predicates on the operand paths
+}
+
+func pathIs(s string) func(string) bool       { return func(p string) bool { return p == s } }
+func pathHasSuffix(s string) func(string) bool { return func(p string) bool { return strings.HasSuffix(p, s) } }
+func pathContains(s string) func(string) bool  { return func(p string) bool { return strings.Contains(p, s) } }
+func pathAny() func(string) bool               { return func(string) bool { return true } }
+
+// cmpAtoms builds an Atom function from comparison specs. For op EQL the atom means "operands are
+// equal" (a != comparison is reported negated, operands may be swapped); for an ordering operator
+// the atom means exactly "x op y".
+func cmpAtoms(p *Prog, specs ...cmpSpec) func(v ssa.Value) (string, bool) {
+	return func(v ssa.Value) (string, bool) {
+		b, ok := v.(*ssa.BinOp)
+		if !ok {
+			return "", false
+		}
+		var px, py string
+		got := false
+		for _, s := range specs {
+			switch s.op {
+			case token.EQL:
+				if b.Op != token.EQL && b.Op != token.NEQ {
+					continue
+				}
+				if !got {
+					px, py, got = p.path(b.X), p.path(b.Y), true
+				}
+				if (s.x(px) && s.y(py)) || (s.x(py) && s.y(px)) {
+					return s.name, b.Op == token.NEQ
+				}
+			default:
+				if b.Op != s.op {
+					continue
+				}
+				if !got {
+					px, py, got = p.path(b.X), p.path(b.Y), true
+				}
+				if s.x(px) && s.y(py) {
+					return s.name, false
+				}
+			}
+		}
+		return "", false
 	}
 }
